@@ -4,6 +4,7 @@ import TantivyModel.Proofs.PruneEarly
 import TantivyModel.Proofs.WandMachine
 import TantivyModel.Proofs.Bm25Q
 import TantivyModel.Proofs.BlockWandMain
+import TantivyModel.Proofs.BlockWandInter
 /-!
 # C06 — Top-K collection returns exactly the best K, with deterministic ties
 
@@ -387,6 +388,34 @@ theorem C06_wand_union_skipsBelow {σ : Type} (cb : σ → Nat → Nat → σ ×
   BlockWand.blockWand_eq_exhaustive hcb fuel s θ hR scorers hwf out h
 
 
+/-- `block_wand_intersection` (conjunction of two or more term scorers + TopDocs), the CONCRETE
+loop: the Lean mirror `BlockWand.blockWandInter` follows the Rust function statement by statement
+(stable sort by `size_hint`, the leader's 128-document windows cut at the smallest
+`last_doc_in_block` of all scorers, the early exits on the global maxima and on
+`!has_remaining_docs()`, the window skip on the sum of block maxima, the branch-free candidate
+filter `leader_score > threshold - Σ block maxima` with the threshold of the window's start, the
+suffix sums of the secondaries' block maxima, the per-candidate seeks with the `doc() > candidate`
+and `seek != candidate` exits and the suffix-bound pruning) and is compared call by call and bit
+by bit with `Weight::for_each_pruning` by the harness (`binter`). For EVERY callback whose
+thresholds never decrease (the stale filter threshold needs this): whenever the mirrored loop
+completes, it ends in the state of the exhaustive loop over all documents `0 .. TERMINATED` with
+the conjunction's total score (`Σ clauses` if every scorer contains the document, no match
+otherwise) — PROVIDED each scorer's postings are ascending and below `TERMINATED`, bounded by
+its `max_score` (`UB_max`) and by the block maximum of their block (`UB_block`)
+(`BlockWand.WF`), and `doc_freq ≤ 128·k` means that the first `k` blocks hold the whole posting
+list (`WFI.noRem`, the meaning of `has_remaining_docs`). Exact scores: the candidate filter is
+read over the integers (`a > θ - b ⟺ a + b > θ`); in `f32` the rounded subtraction can drop a
+document that beats the threshold by an ulp (observed, inside the property's rounding allowance).
+Outcomes `assertFailed` (fewer than two scorers), `skipAhead` (a skip reader ahead of the
+window's block; cannot happen, reported by the harness if the model ever answers it) and
+`outOfFuel` are not covered. -/
+theorem C06_wand_intersection_skipsBelow {σ : Type} (cb : σ → Nat → Nat → σ × Nat) (R : σ → Nat → Prop)
+    (hcb : Wand.MonoCb cb R) (fuel : Nat) (s : σ) (θ : Nat) (hR : R s θ)
+    (scorers : List (BlockWand.TS Nat)) (hwf : ∀ x, x ∈ scorers → BlockWand.WFI x) (out : σ × Nat)
+    (h : BlockWand.blockWandInter cb fuel (s, θ) scorers = .ok out) :
+    out = Wand.exhRange cb (Wand.interTotal (scorers.map (·.rest))) 0 BlockWand.T (s, θ) :=
+  BlockWand.blockWandInter_eq_exhaustive hcb fuel s θ hR scorers hwf out h
+
 /-! ## the score bounds (exact arithmetic) and the refuted hypothesis `UB_max` -/
 
 open TantivyModel.Bm25Q in
@@ -585,6 +614,71 @@ example : Wand.runMachine (fun (s : List Nat) d sc => (s ++ [d], sc)) Wand.union
 /-- conjunction: document 1 is only in the first list (no match), document 2 is in both -/
 example : Wand.runMachine (fun (s : List Nat) d sc => (s ++ [d], sc)) Wand.interTotal [.seek 0 2, .eval 2, .seek 1 6] exPs ([], 4)
     = Wand.exhRange (fun (s : List Nat) d sc => (s ++ [d], sc)) (Wand.interTotal exPs) 0 6 ([], 4) := by decide
+/-! non-vacuity of the theorems about the mirrored loops: two well-formed scorers (one decoded
+tail block each) on which both loops complete, skip documents 1 and 5, and score document 2 -/
+def exA : BlockWand.TS Nat :=
+  { rest := [(1, 3), (2, 3)], maxScore := 3, blocks := [], skip := 0, tailMax := 3, tailLoaded := true, cost := 2 }
+def exB : BlockWand.TS Nat :=
+  { rest := [(2, 4), (5, 2)], maxScore := 4, blocks := [], skip := 0, tailMax := 4, tailLoaded := true, cost := 2 }
+
+theorem exA_wfi : BlockWand.WFI exA where
+  wf :=
+    { asc := by unfold Wand.Asc; decide
+      lt := by decide
+      ubMax := by decide
+      ubBlk := by
+        intro p hp
+        refine ⟨fun l bm h => ?_, fun _ => ?_⟩
+        · simp [exA] at h
+        · simp only [exA, mem_cons, not_mem_nil, or_false] at hp
+          rcases hp with rfl | rfl <;> decide
+      blocksAsc := Pairwise.nil }
+  noRem := by
+    intro k hk p _
+    have h2 : 2 ≤ 128 * k := hk
+    show ([] : List (Nat × Nat)).length < k
+    simp only [length_nil]; omega
+
+theorem exB_wfi : BlockWand.WFI exB where
+  wf :=
+    { asc := by unfold Wand.Asc; decide
+      lt := by decide
+      ubMax := by decide
+      ubBlk := by
+        intro p hp
+        refine ⟨fun l bm h => ?_, fun _ => ?_⟩
+        · simp [exB] at h
+        · simp only [exB, mem_cons, not_mem_nil, or_false] at hp
+          rcases hp with rfl | rfl <;> decide
+      blocksAsc := Pairwise.nil }
+  noRem := by
+    intro k hk p _
+    have h2 : 2 ≤ 128 * k := hk
+    show ([] : List (Nat × Nat)).length < k
+    simp only [length_nil]; omega
+
+example : (BlockWand.blockWand (fun (s : List Nat) d sc => (s ++ [d], sc)) 20 ([], 4) [exA, exB]).isOk ([2], 7) = true := by
+  decide
+example : (BlockWand.blockWandInter (fun (s : List Nat) d sc => (s ++ [d], sc)) 20 ([], 4) [exA, exB]).isOk ([2], 7) = true := by
+  decide
+/-- what the theorem buys on the example: the exhaustive loop over all 2^31 - 1 documents (not
+computable by evaluation) ends in the state the pruning loop computed -/
+example : (([2], 7) : List Nat × Nat) = Wand.exhRange (fun (s : List Nat) d sc => (s ++ [d], sc))
+    (Wand.unionTotal [exA.rest, exB.rest]) 0 BlockWand.T ([], 4) := by
+  refine C06_wand_union_skipsBelow _ _ recordCb_mono 20 [] 4 trivial [exA, exB] ?_ _ ?_
+  · intro x hx
+    simp only [mem_cons, not_mem_nil, or_false] at hx
+    rcases hx with rfl | rfl
+    · exact exA_wfi.wf
+    · exact exB_wfi.wf
+  · have h : (BlockWand.blockWand (fun (s : List Nat) d sc => (s ++ [d], sc)) 20 ([], 4) [exA, exB]).isOk ([2], 7) = true := by
+      decide
+    cases hr : BlockWand.blockWand (fun (s : List Nat) d sc => (s ++ [d], sc)) 20 ([], 4) [exA, exB] with
+    | ok o => rw [hr] at h; simp only [BlockWand.Outcome.isOk, decide_eq_true_eq] at h; rw [h]
+    | assertFailed => rw [hr] at h; cases h
+    | skipAhead => rw [hr] at h; cases h
+    | outOfFuel => rw [hr] at h; cases h
+
 def exTerms : List Wand.TermList := [⟨[(2, 3), (9, 1)], 3⟩, ⟨[(5, 4)], 4⟩, ⟨[(5, 2), (6, 2)], 2⟩]
 example : Wand.findPivot 5 exTerms 0 = some 5 ∧ Wand.totalScore exTerms 2 = 3 ∧ Wand.totalScore exTerms 5 = 6 := by
   decide
